@@ -60,6 +60,7 @@ class St:
         self.dead = False    # path stopped by a violation that makes continuing meaningless
         self.infeasible = False
         self.nin = 0
+        self.lambdas = {}
         self.reads_of = []   # (path, line, fn) - every member value consulted in a computation (for L8)
         self.stale = []      # (path, read line, read fn, assign line) - consulted, then redefined by the same run
 
@@ -81,6 +82,7 @@ class St:
         n.infeasible = self.infeasible
         n.nin = self.nin
         n.reads_of = list(self.reads_of)
+        n.lambdas = dict(self.lambdas)
         n.stale = list(self.stale)
         return n
 
@@ -100,6 +102,9 @@ class Frame:
             if ABSTRACT_FILE in p['t']:
                 self.file_parm_ids.add(p['id'])
         self.key = (fn['name'], depth)
+        self.obj_alias = {}   # parameter name -> member path prefix of the object it designates (`*this` passed to a helper function)
+        self.ptr_alias = {}   # pointer parameter name -> ('addr', member path) | ('data', container path)
+        self.outer_key = None
 
 
 class Interp:
@@ -257,6 +262,11 @@ class Interp:
         if k == 'Decl':
             states = [st]
             for v in s['vars']:
+                lam = self._as_lambda(v.get('init'))
+                if lam is not None:
+                    for cur in states:
+                        cur.lambdas[(frame.key, v['id'])] = lam
+                    continue
                 nxt = []
                 for cur in states:
                     if v.get('init') is None:
@@ -270,7 +280,7 @@ class Interp:
                         self.broken('local variable of type ' + v.get('t', '?'), s, frame)
                 states = nxt
             return states
-        if k == 'While':
+        if k in ('While', 'For', 'Do'):
             return self.exec_resync_loop(s, st, frame)
         if k == 'Throw':
             st.thrown = s.get('thrown') or 'throw'
@@ -286,6 +296,8 @@ class Interp:
     def exec_resync_loop(self, s, st, frame):
         if not frame.fn['name'].endswith('ObjectHeaderBase::read'):
             self.broken('loop', s, frame)
+        if s.get('k') == 'For' and (s.get('init') is not None or s.get('inc') is not None):
+            self.broken('signature search loop with init/increment', s, frame)
         from facts import walk
         reads = [n for n in walk(s['body']) if n.get('k') == 'Call' and n.get('callee') == ABSTRACT_FILE + '::read']
         assigns = [n for n in walk(s['body']) if n.get('k') == 'Bin' and n.get('op') == '=' and
@@ -309,6 +321,19 @@ class Interp:
             return self.do_assign(e, st, frame, compound=e['op'][:-1])
         if k == 'Un' and e['op'] in ('++', '--'):
             self.broken('increment', e, frame)
+        if k == 'Call' and e.get('ck') == 'operator' and e.get('op') == '()' and e.get('args'):
+            o = strip_all_casts(e['args'][0])
+            lam = st.lambdas.get((frame.key, o.get('id'))) if isinstance(o, dict) and o.get('k') == 'Ref' else None
+            if lam is None:
+                # a lambda of an enclosing frame (captured by reference)
+                for (fk, vid), l_ in st.lambdas.items():
+                    if isinstance(o, dict) and vid == o.get('id'):
+                        lam = l_
+            if lam is not None:
+                pseudo = {'name': frame.fn['name'] + '::(lambda)', 'params': lam.get('params', []), 'body': lam['body'], 'ret': 'void',
+                          'file': frame.fn['file'], 'sig': 'lambda', 'line': lam.get('l')}
+                call = {'k': 'Call', 'args': e['args'][1:], 'l': e.get('l')}
+                return [s2 for s2, _ in self.call_bound(pseudo, frame.prefix, frame.dyn_cls, call, st, frame, inherit=frame)]
         if k == 'Call':
             callee = e.get('callee') or ''
             obj = e.get('obj')
@@ -330,8 +355,8 @@ class Interp:
                 return self.prim_resize(e, st, frame)
             if e.get('ck') == 'member' and e.get('fn') in ('reserve', 'shrink_to_fit') and not e.get('calleeInRoot'):
                 return [st]   # capacity only: size() and contents are unchanged
-            if e.get('ck') == 'member' and e.get('calleeInRoot'):
-                # codec call on this / base / sub-object
+            if e.get('ck') in ('member', 'function') and e.get('calleeInRoot'):
+                # codec call on this / base / sub-object, or an extracted helper function that gets the stream (and the object)
                 outs = []
                 for s2, _ in self.call_inline(e, st, frame):
                     outs.append(s2)
@@ -348,7 +373,10 @@ class Interp:
         if p is None:
             return None
         if p and p[0].startswith('$'):
-            return None
+            al = frame.obj_alias.get(p[0][1:])
+            if al is None:
+                return None
+            return al + p[1:]
         return frame.prefix + p
 
     def do_assign(self, e, st, frame, compound=None):
@@ -400,8 +428,22 @@ class Interp:
     def ptr_target(self, p, frame):
         """classify the pointer argument of read/write: returns dict(kind, path, target_size, elem)"""
         q = strip_all_casts(p)
+        if isinstance(q, dict) and q.get('k') == 'Ref' and q.get('dk') == 'parm' and q.get('name') in frame.ptr_alias:
+            kind, path = frame.ptr_alias[q['name']]
+            _, f = self.field_info(self.cls, path)
+            if f is None:
+                self.broken('unresolvable member ' + fmt_path(path), p, frame)
+            if kind == 'addr':
+                return {'kind': 'member', 'path': path, 'target_size': f.get('size'), 'field': f}
+            return {'kind': 'container', 'path': path, 'elem': f['elem'].get('size'), 'field': f,
+                    'trivCopy': f['elem'].get('trivCopy', True) if f['elem'].get('kind') == 'record' else True}
         if q.get('k') == 'Un' and q.get('op') == '&':
             sub = strip_all_casts(q['sub'])
+            if sub.get('k') == 'Ref' and sub.get('dk') == 'parm' and sub.get('name') in frame.obj_alias:
+                path = frame.obj_alias[sub['name']]
+                _, f = self.field_info(self.cls, path)
+                if f is not None:
+                    return {'kind': 'member', 'path': path, 'target_size': f.get('size'), 'field': f}
             if sub.get('k') == 'Ref' and sub.get('dk') in ('local', 'parm'):
                 return {'kind': 'local', 'path': None, 'name': sub['name'], 'id': sub['id'],
                         'target_size': self.type_size(sub['t'])}
@@ -613,13 +655,46 @@ class Interp:
 
     def call_inline(self, e, st, frame):
         fn, prefix, dyn = self.resolve_call(e, frame)
+        return self.call_bound(fn, prefix, dyn, e, st, frame)
+
+    def call_bound(self, fn, prefix, dyn, e, st, frame, inherit=None):
         nf = Frame(fn, prefix, dyn, frame.depth + 1, frame.chain + (fn['name'],))
-        # arguments: the AbstractFile parameter is passed through; scalars are evaluated
+        if inherit is not None:
+            # a lambda sees the enclosing function's stream parameter, locals and aliases (capture by reference)
+            nf.file_parm_ids |= inherit.file_parm_ids
+            nf.obj_alias.update(inherit.obj_alias)
+            nf.ptr_alias.update(inherit.ptr_alias)
+            nf.key = inherit.key if False else nf.key
+            nf.outer_key = inherit.key
         states = [st]
         for p, a in zip(fn['params'], e.get('args', [])):
             if ABSTRACT_FILE in p['t']:
                 if not self.is_file_parm(a, frame):
                     self.broken('a different stream is passed down to ' + fn['name'], e, frame)
+                continue
+            t = p.get('t', '')
+            if '&' in t or t.endswith('*'):
+                # a reference / pointer to (part of) the object: the parameter designates that member path
+                tgt = strip_all_casts(a)
+                addr = False
+                while isinstance(tgt, dict) and tgt.get('k') == 'Un' and tgt.get('op') in ('*', '&'):
+                    addr = addr or tgt['op'] == '&'
+                    tgt = strip_all_casts(tgt['sub'])
+                if isinstance(tgt, dict) and tgt.get('k') == 'This':
+                    nf.obj_alias[p['name']] = frame.prefix
+                    continue
+                if isinstance(tgt, dict) and tgt.get('k') == 'Call' and tgt.get('fn') == 'data' and tgt.get('ck') == 'member':
+                    cp = self.abs_path(tgt['obj'], frame)
+                    if cp is not None:
+                        nf.ptr_alias[p['name']] = ('data', cp)
+                        continue
+                ap = self.abs_path(tgt, frame) if isinstance(tgt, dict) else None
+                if ap is None:
+                    self.broken('helper %s gets a reference/pointer that is not (part of) the object' % fn['name'], e, frame)
+                if t.endswith('*'):
+                    nf.ptr_alias[p['name']] = ('addr', ap)
+                else:
+                    nf.obj_alias[p['name']] = ap
                 continue
             nxt = []
             for cur in states:
@@ -636,6 +711,22 @@ class Interp:
                 s2.ret = saved
                 outs.append((s2, rv))
         return outs
+
+    @staticmethod
+    def _as_lambda(init):
+        x = init
+        for _ in range(4):
+            if not isinstance(x, dict):
+                return None
+            if x.get('k') == 'Lambda':
+                return x
+            if x.get('k') == 'Cast':
+                x = x.get('sub')
+            elif x.get('k') == 'Construct' and x.get('args'):
+                x = x['args'][0]
+            else:
+                return None
+        return None
 
     # ------------------------------------------------------------------ numeric evaluation
     def ev(self, e, st, frame):
@@ -670,6 +761,11 @@ class Interp:
                 key = (frame.key, e['id'])
                 if key in st.lenv:
                     return [(st, st.lenv[key])]
+                if frame.outer_key is not None and (frame.outer_key, e['id']) in st.lenv:
+                    return [(st, st.lenv[(frame.outer_key, e['id'])])]
+                if e.get('dk') == 'parm' and e.get('name') in frame.obj_alias:
+                    # a scalar member handed in by reference
+                    return [(st, self.member_value(frame.obj_alias[e['name']], st, frame, e.get('l')))]
                 return [(st, Lin.term(('local', e['name'])))]
             if 'v' in e:
                 return [(st, Lin(e['v']))]
